@@ -425,6 +425,8 @@ class Recorder(object):
         ctx = self.ctx
         k = len(ctx.calls) + 1
         rec = dict(k=k, x=np.array(x, dtype=float, copy=True), r=None, exc=None, args=args, fault=None)
+        if ctx.extra.get("record_phase"):
+            rec["phase"] = call_phase()
         ctx.calls.append(rec)
         ctx.iters_since_eval = 0
         kind = self.faults.get(k)
@@ -441,6 +443,54 @@ class Recorder(object):
             raise
         rec["r"] = np.array(r, copy=True)
         return r
+
+
+_FINAL_CHECK_LINES = None
+
+
+def _final_check_lines():
+    """Line numbers in solver.py of the evaluate_objective call that checks the last step before quitting on rho = rhoend."""
+    global _FINAL_CHECK_LINES
+    if _FINAL_CHECK_LINES is None:
+        _FINAL_CHECK_LINES = set()
+        try:
+            lines = open(os.path.join(REPO, "dfols", "solver.py")).read().splitlines()
+            for i, ln in enumerate(lines):
+                if "Cannot reduce rho, so check xnew and quit" in ln:
+                    for j in range(i, min(i + 12, len(lines))):
+                        if "evaluate_objective(" in lines[j]:
+                            _FINAL_CHECK_LINES.update({j + 1, j + 2})
+                            break
+        except Exception:
+            pass
+    return _FINAL_CHECK_LINES
+
+
+def call_phase():
+    """Which phase of the algorithm asked for this evaluation (from the Python call chain; no source change)."""
+    f = sys._getframe(2)
+    names = []
+    solver_line = None
+    while f is not None and len(names) < 12:
+        fn = f.f_code.co_filename
+        if os.sep + "dfols" + os.sep in fn:
+            names.append(f.f_code.co_name)
+            if f.f_code.co_name == "solve_main":
+                solver_line = f.f_lineno
+        f = f.f_back
+    if "soft_restart" in names:
+        return "restart"
+    if "geometry_step" in names:
+        return "geometry"
+    if "initialise_coordinate_directions" in names or "initialise_random_directions" in names:
+        return "initialisation"
+    if "add_new_direction_while_growing" in names or "move_furthest_points_momentum" in names:
+        return "extra-step"
+    if "evaluate_objective" in names:
+        return "final-check" if solver_line in _final_check_lines() else "trial"
+    if "solve_main" in names:
+        return "x0"
+    return "other"
 
 
 def apply_fault(r, kind, k):
